@@ -341,6 +341,74 @@ def interrupted_wait(tmpdir):
     return problems
 
 
+def release_while_another_thread_polls(tmpdir):
+    """C12/C02: thread A is polling for a contended lock through object L; another thread calls L.release()
+    (for that thread L is unheld: a no-op).  A's later acquire / nested use / release must be unaffected."""
+    problems = []
+    for reentrant in (False, True):
+        path = os.path.join(tmpdir, 'relpoll%d' % reentrant)
+        other, lk = FL.FileLock(path), FL.FileLock(path, reentrant=reentrant)
+        w0, w1 = Worker(), Worker()
+        real_time = FL.time
+        polling, go = threading.Event(), threading.Event()
+
+        class FakeTime:
+            def __getattr__(s, n):
+                return getattr(real_time, n)
+
+            def sleep(s, d):
+                if not polling.is_set():
+                    polling.set()
+                    go.wait(10)
+                return real_time.sleep(min(d, 0.01))
+        try:
+            w0.call(lambda: other.acquire())
+            FL.time = FakeTime()
+            box = []
+            th = threading.Thread(target=lambda: box.append(w1.call(lambda: lk.acquire(timeout=5), timeout=20)))
+            th.start()
+            if not polling.wait(10):
+                problems.append('scenario set-up: the contender never started polling')
+            st, res = w0.call(lambda: lk.release())            # unheld for this thread
+            if st != 'ok':
+                problems.append('release() of an unheld lock while another thread polls raised %r' % (res,))
+            w0.call(lambda: other.release())
+            go.set()
+            th.join(20)
+            FL.time = real_time
+            if not box or box[0] != ('ok', True):
+                problems.append('the polling thread did not get the lock after the holder released: %r' % (box,))
+            else:
+                if reentrant:
+                    w1.call(lambda: lk.acquire())
+                    w1.call(lambda: lk.release())
+                    if not lk.is_locked or other.acquire(blocking=False):
+                        problems.append('after a foreign no-op release() during its poll, the owner lost the lock '
+                                        'when it left a NESTED level (is_locked=%r)' % lk.is_locked)
+                        other.release()
+                w1.call(lambda: lk.release())
+                if lk.is_locked or lk._lock_counter != 0:
+                    problems.append('after a foreign no-op release() during its poll, the owner\'s own release did '
+                                    'not release: is_locked=%r counter=%d' % (lk.is_locked, lk._lock_counter))
+                st, res = w0.call(lambda: other.acquire(timeout=0.5))
+                if st != 'ok' or res is not True:
+                    problems.append('after a foreign no-op release() during a poll nobody can acquire the lock any '
+                                    'more: %s %r' % (st, res))
+        finally:
+            FL.time = real_time
+            go.set()
+            for o in (other, lk):
+                try:
+                    o.release(force=True)
+                except Exception:
+                    pass
+            w0.stop()
+            w1.stop()
+        if problems:
+            break
+    return problems
+
+
 def gen_sequences(maxlen, rng, budget):
     moves = [(t, o, op) for t in range(2) for o in range(2) for op in OPS]
     seen = 0
@@ -376,10 +444,10 @@ def main():
                               tmpdir)
             print('\n'.join(pr) or 'OK')
             return 1 if pr else 0
-        pr = interrupted_wait(tmpdir)
-        runs += 2
+        pr = interrupted_wait(tmpdir) or release_while_another_thread_polls(tmpdir)
+        runs += 4
         if pr:
-            print('filelock_ops: interrupted wait')
+            print('filelock_ops: directed scenarios')
             for x in pr:
                 print('PROBLEM:', x)
             return 1
